@@ -32,6 +32,7 @@ from dataclasses import dataclass
 from enum import auto
 from enum import Flag
 from enum import unique
+import re
 from typing import Any
 from typing import Callable
 from typing import Collection
@@ -75,6 +76,14 @@ if TYPE_CHECKING:
     from .interfaces import TableKey
 
 _R = TypeVar("_R")
+
+
+def _escape_reflected_sqltext(sqltext: str) -> str:
+    """Escape the colons of SQL text that was read from the database, so
+    that ``:name`` inside of it is not taken for a bound parameter when
+    the text is made into a :func:`_sql.text` construct."""
+
+    return re.sub(r"(?<![:\w]):(\w+)(?!:)", r"\\:\1", sqltext)
 
 
 @util.decorator
@@ -1989,7 +1998,11 @@ class Inspector(inspection.Inspectable["Inspector"]):
     ) -> None:
         constraints = _reflect_info.check_constraints.get(table_key, [])
         for const_d in constraints:
-            table.append_constraint(sa_schema.CheckConstraint(**const_d))
+            const_kw: Dict[str, Any] = dict(const_d)
+            const_kw["sqltext"] = _escape_reflected_sqltext(
+                const_kw["sqltext"]
+            )
+            table.append_constraint(sa_schema.CheckConstraint(**const_kw))
 
     def _reflect_table_comment(
         self,
